@@ -37,6 +37,8 @@ type Case struct {
 	Slack json.RawMessage `json:"slack"`
 	K     int64           `json:"K"`
 	Br    string          `json:"br"`
+	Dev   json.RawMessage `json:"dev"`   // known deviation: additional slack under which a failure is the known finding DevID
+	DevID string          `json:"devid"`
 	// class cases
 	Fn   string            `json:"fn"`
 	Args []json.RawMessage `json:"args"`
@@ -307,9 +309,30 @@ func replay(casesPath, resultsPath string) {
 				vh.Mismatch(out, vh.M{"engine": "special", "fam": c.Fam, "what": what},
 					vh.M{"mode": "case", "at": at, "case": raw, "reason": o.Reason, "calls": o.Calls})
 			} else if o.R > c.K {
-				vh.Mismatch(out, vh.M{"engine": "special", "fam": c.Fam, "what": "residual"},
-					vh.M{"mode": "case", "at": at, "case": raw, "r_units": o.R, "K": c.K, "diff": o.Diff, "scale": o.Scale,
-						"evaluator_bound": o.EvalE, "lhs": fstr(o.L), "rhs": fstr(o.Rv), "calls": o.Calls})
+				sig := vh.M{"engine": "special", "fam": c.Fam, "what": "residual"}
+				if len(c.Dev) > 0 {
+					// modelled known deviation: does the observation stay within it?
+					dn, err := parseRaw(c.Dev)
+					if err != nil {
+						return err
+					}
+					c2 := *cc
+					if cc.slack != nil {
+						c2.slack = &Node{Tag: "b", Fn: "add", A: &Node{Tag: "u", Fn: "abs", A: cc.slack}, B: dn}
+					} else {
+						c2.slack = dn
+					}
+					o2, err := evalEq(&c2, c.K, nil)
+					if err != nil {
+						return fmt.Errorf("case %s %s: deviation: %v", c.Fam, at, err)
+					}
+					if o2.Cls == "finite" && o2.R <= c.K {
+						sig["known"] = c.DevID
+					}
+				}
+				vh.Mismatch(out, sig,
+					vh.M{"mode": "case", "at": at, "case": raw, "r_units": o.R, "K": c.K, "diff": fstr(o.Diff), "scale": fstr(o.Scale),
+						"evaluator_bound": fstr(o.EvalE), "lhs": fstr(o.L), "rhs": fstr(o.Rv), "calls": o.Calls})
 			}
 		case "class":
 			env := &Env{}
@@ -419,7 +442,7 @@ func record(schemasPath, tracePath, resultsPath string, n int) {
 		events++
 		trace.Put(vh.M{"e": "id", "idx": s.c.Idx, "fam": s.c.Fam, "args": pt, "cls": o.Cls, "r": o.R})
 		out.Put(vh.M{"kind": "event", "n": events, "fam": s.c.Fam, "args": pt, "cls": o.Cls, "r": o.R, "K": s.c.K,
-			"diff": o.Diff, "scale": o.Scale, "evaluator_bound": o.EvalE, "weak": o.Weak, "reason": o.Reason, "calls": o.Calls})
+			"diff": fstr(o.Diff), "scale": fstr(o.Scale), "evaluator_bound": fstr(o.EvalE), "weak": o.Weak, "reason": o.Reason, "calls": o.Calls})
 		return true
 	}
 	if only != "" {
